@@ -5,7 +5,7 @@
    Statements only; proofs in proofs/TacticsLin.v, proofs/TacticsFacts.v. *)
 From Coq Require Import List String Bool QArith Reals.
 Import ListNotations.
-Require Import Py ListsGen ConstGen Sem Term Poly Tactics PolySpec TermFacts PolyLP PolyFacts TacticsLin TacticsFacts.
+Require Import Py ListsGen ConstGen Sem Term Poly Tactics PolySpec TermFacts PolyLP PolyFacts TacticsLin TacticsFacts PyDict TermGen TermGenCore TermGenArith TermGenRemove TermGenSubst TermGenIsolate.
 
 (* well-formed input: dict keys unique, no stored zero coefficient in the list being transformed,
    no duplicate in the variables to eliminate, and the reserved name "_" (used internally by
@@ -61,3 +61,30 @@ Proof. exact tactic3_needs_fresh_underscore. Qed.
 Example C04_nonvacuous :
   elim_vars_by_refining noO [ex_t1] [ex_c2; ex_c3] ["y"; "z"]%string false [4%nat] = inl ([ex_x1], [(4%Z, 2%Z)]).
 Proof. exact ex_refine_tactic4_rec. Qed.
+
+(* ---- T1 tie for the term arithmetic the tactics are built on: the methods of PolyhedralTerm as translated from
+   polyhedra.py ON THIS RUN (gen/TermGen.v) are the model functions used by model/Tactics.v (on terms without a
+   stored zero coefficient, which is what the constructor produces). A semantic edit of one of these methods
+   breaks the corresponding obligation. *)
+Theorem C04_code_isolate_variable : forall (t : pterm) (v : var),
+  wft' t -> PolyhedralTerm_isolate_variable t v = term_isolate_variable t v.
+Proof. exact isolate_variable_eq'. Qed.
+Theorem C04_code_substitute_variable : forall (t : pterm) (v : var) (s : pterm),
+  wft' t -> wft s -> PolyhedralTerm_substitute_variable t v s = ret (term_substitute_variable t v s).
+Proof. exact substitute_variable_eq'. Qed.
+Theorem C04_code_remove_variable : forall (t : pterm) (v : var),
+  wft' t -> PolyhedralTerm_remove_variable t v = ret (term_remove_variable t v).
+Proof. exact remove_variable_eq'. Qed.
+Theorem C04_code_multiply : forall (t : pterm) (f : Q), wft t -> PolyhedralTerm_multiply t f = term_multiply t f.
+Proof. exact multiply_eq. Qed.
+Theorem C04_code_add : forall t1 t2 : pterm, wft t1 -> wft t2 -> PolyhedralTerm_add t1 t2 = ret (term_add t1 t2).
+Proof. exact add_eq. Qed.
+Theorem C04_code_get_coefficient : forall (t : pterm) (v : var), PolyhedralTerm_get_coefficient t v = ret (get_coefficient t v).
+Proof. exact get_coefficient_eq. Qed.
+Theorem C04_code_contains_var : forall (t : pterm) (v : var), PolyhedralTerm_contains_var t v = contains_var t v.
+Proof. exact contains_var_eq. Qed.
+Theorem C04_code_vars : forall t : pterm, PolyhedralTerm_vars t = term_vars_p t.
+Proof. exact vars_eq. Qed.
+Print Assumptions C04_code_isolate_variable. Print Assumptions C04_code_substitute_variable.
+Print Assumptions C04_code_remove_variable. Print Assumptions C04_code_multiply. Print Assumptions C04_code_add.
+Print Assumptions C04_code_get_coefficient. Print Assumptions C04_code_contains_var. Print Assumptions C04_code_vars.
